@@ -84,8 +84,13 @@ func GenC03(rng *kernel.RNG, env *kernel.Env, k int) any {
 	for i := 0; i < nn; i++ {
 		p.Nodes = append(p.Nodes, genNodeCfg(rng))
 		base := GenDeliveries(rng, &p.Recipe, i, 0.06, 0.08, rng.Range(1, 8))
-		profile := rng.Intn(4) // 0,1 FULL; 2 HEADER; 3 headers-then-blocks
+		profile := rng.Intn(5) // 0,1 FULL; 2 HEADER; 3 headers-then-blocks; 4 fast sync, then FULL
 		var ops []Op
+		if profile == 4 {
+			// header chain, bodies + receipts up to a pivot, the pivot's state, then ordinary
+			// deliveries of the whole tree (with rewinds)
+			ops = genFastSync(rng, &p.Recipe, i)
+		}
 		if profile == 3 {
 			// properly separated phases on one branch (what the header-first import
 			// path supports): all headers of the path to one leaf, then its blocks
